@@ -1,0 +1,56 @@
+// -*- coding: utf-8 -*-
+// ------------------------------------------------------------------------------------------------
+// Verification hooks.  Only compiled with the cargo feature `verif`; never enabled by default.
+//
+// The library emits small JSON events (action name + cheap scalar arguments) into a thread-local
+// sink at the points where the interpreters change observable state.  Nothing is emitted unless a
+// harness called `start()` on the current thread.
+// ------------------------------------------------------------------------------------------------
+
+use std::cell::RefCell;
+
+pub use serde_json::json;
+pub use serde_json::Value as Json;
+
+thread_local! {
+    static SINK: RefCell<Option<Vec<Json>>> = RefCell::new(None);
+}
+
+/// Starts recording events on the current thread (discarding anything recorded before).
+pub fn start() {
+    SINK.with(|s| *s.borrow_mut() = Some(Vec::new()));
+}
+
+/// Stops recording on the current thread and returns the recorded events.
+pub fn take() -> Vec<Json> {
+    SINK.with(|s| s.borrow_mut().take().unwrap_or_default())
+}
+
+/// Is a recording active on the current thread?
+pub fn enabled() -> bool {
+    SINK.with(|s| s.borrow().is_some())
+}
+
+/// Number of events recorded so far on the current thread.
+pub fn len() -> usize {
+    SINK.with(|s| s.borrow().as_ref().map(|v| v.len()).unwrap_or(0))
+}
+
+/// Records one event.  The closure is only evaluated while a recording is active, and is evaluated
+/// before the sink is borrowed, so it may itself call into code that emits.
+pub fn emit<F: FnOnce() -> Json>(f: F) {
+    if !enabled() {
+        return;
+    }
+    let event = f();
+    SINK.with(|s| {
+        if let Some(v) = s.borrow_mut().as_mut() {
+            v.push(event);
+        }
+    });
+}
+
+/// JSON form of a DSL value (uses the crate's own `Serialize` implementation).
+pub fn value(value: &crate::graph::Value) -> Json {
+    serde_json::to_value(value).unwrap_or(Json::Null)
+}
